@@ -314,6 +314,13 @@ func c13R3(c *Ctx, rule string) {
 			switch x := i.(type) {
 			case *ssa.Store:
 				fv, _ := fieldVar(x.Addr)
+				if fv == a.writingFrame {
+					// a whole-struct assignment overwrites Seq (and StreamID) as well
+					root, _ := fieldChain(x.Addr)
+					_, ctor := root.(*ssa.Alloc)
+					c.Check(ctor, rule, "whole-struct store to Stream.writingFrame in "+shortFn(f), c.at(i), "constructor initialisation",
+						"the frame template is overwritten as a whole with "+Expr(x.Val)+": its Seq is set to whatever that copy holds (e.g. a snapshot taken before the last frame was sent), so a sequence number is reused or skipped")
+				}
 				if fv == a.seq && rootedAtField(x.Addr, a.writingFrame) {
 					construct := "store to writingFrame.Seq in " + shortFn(f)
 					root, _ := fieldChain(x.Addr)
